@@ -46,13 +46,13 @@ package state
 //@   ensures s.lastChangeId == old(s.lastChangeId) && s.lastTaskId == old(s.lastTaskId) && s.lastNoticeId == old(s.lastNoticeId)
 
 //@ func (*Task).MarshalJSON
-//@   props C05
+//@   props C05 C04
 //@   requires t != nil && t.state != nil
 //@   guard call json.Marshal: mirrors(arg0v, t, "ReadyTime AtTime")
 //@   guard call json.Marshal: (arg0v.ReadyTime == nil) == t.readyTime.IsZero() && (arg0v.AtTime == nil) == t.atTime.IsZero()
 
 //@ func (*Task).UnmarshalJSON
-//@   props C05
+//@   props C05 C04
 //@   requires t != nil
 //@   ensures result == nil ==> mirrors(final(unmarshalled), t, "WaitedStatus Data ReadyTime AtTime")
 //@   ensures result == nil ==> t.waitedStatus == ite(final(unmarshalled).WaitedStatus == DefaultStatus, DoneStatus, final(unmarshalled).WaitedStatus)
@@ -62,13 +62,13 @@ package state
 //@   ensures result == nil && final(unmarshalled).AtTime != nil ==> t.atTime == *final(unmarshalled).AtTime
 
 //@ func (*Change).MarshalJSON
-//@   props C05
+//@   props C05 C04
 //@   requires c != nil && c.state != nil
 //@   guard call json.Marshal: mirrors(arg0v, c, "ReadyTime")
 //@   guard call json.Marshal: (arg0v.ReadyTime == nil) == c.readyTime.IsZero()
 
 //@ func (*Change).UnmarshalJSON
-//@   props C05
+//@   props C05 C04
 //@   requires c != nil
 //@   ensures result == nil ==> mirrors(final(unmarshalled), c, "Data ReadyTime")
 //@   ensures result == nil && final(unmarshalled).Data != nil ==> c.data == final(unmarshalled).Data
@@ -77,12 +77,12 @@ package state
 
 // Warnings and Notices are maps in the live state and lists in the persisted form (flatten*/unflatten*)
 //@ func (*State).MarshalJSON
-//@   props C05
+//@   props C05 C04
 //@   requires s != nil
 //@   guard call json.Marshal: mirrors(arg0v, s, "Warnings Notices")
 
 //@ func (*State).UnmarshalJSON
-//@   props C05
+//@   props C05 C04
 //@   requires s != nil
 //@   ensures result == nil ==> mirrors(final(unmarshalled), s, "Warnings Notices")
 
